@@ -10,6 +10,7 @@ Line protocol `kinesis` (worker model) and `kinesismon` (C11 spec evaluator).
   * `outs`: list of `E` (whole-call error) | `C`/`C1`/`C2` (context cancelled before the attempt; the digit
     is the harness's choice of where the real worker notices, irrelevant to the model) | `R<bits>:<failedCount>`
 * `kinesismon check <recs> <calls> <outs> <result> <reported|none> <txns>` → `ok` | `skip` | `viol <what>`
+* `kinesismon order <recs> <calls>` → `ok` | `viol out-of-batch-order` (C05: every call is a sub-list, in order, of the batch)
 -/
 namespace PgBifrost.Driver.Kinesis
 open PgBifrost.KinesisRetry PgBifrost.Spec.Kinesis PgBifrost.Batch PgBifrost.Util
@@ -105,6 +106,10 @@ def monHandle (args : List String) : String :=
         | .ok => "ok"
         | .viol w => "viol " ++ w
     | _, _, _, _ => "bad-op"
+  | ["order", recs, calls] =>
+    match nats (splitList recs), parseCalls calls with
+    | some rs, some cs => if callsInOrder rs cs then "ok" else "viol out-of-batch-order"
+    | _, _ => "bad-op"
   | _ => "bad-op"
 
 end PgBifrost.Driver.Kinesis
